@@ -12,6 +12,10 @@ pub struct Entry {
     pub commit: Option<String>,
     #[serde(default)]
     pub ceiling: Option<f64>,
+    #[serde(default)]
+    pub line: Option<String>,
+    #[serde(default)]
+    pub regression: Option<String>,
 }
 
 #[derive(Default)]
